@@ -17,6 +17,9 @@
 #   nest  re-entrancy on one thread: a scan started from inside the RuleMatch callback of another scan (same scanner,
 #         a clone, another scanner), rules reading per-scan caches after the callback; references = each scan alone
 #         on a scanner compiled for it                                                                [exploration]
+#   script one thread, several scanners with their own parameters (timeouts), set_scan_params between scans, scans that
+#         return early, waits, a logger that panics once; references computed first, each on its own thread
+#                                                                                                    [exploration]
 import hashlib, json, os, re
 from .. import core
 from ..core import gN, gZ, gbool, glist, gbytes, gopt, gpair, gstr
@@ -142,8 +145,12 @@ class C13(Prop):
             "equal-length inputs for regexes with a repetition left of the atom (/a.*bcd.z/ ...).  nest: a callback-API "
             "scan whose k-th / every RuleMatch callback runs, on the same thread, a scan of another input of the "
             "same size (list or callback API, optionally one level deeper) on the same scanner / a clone / another "
-            "scanner; hash.* over identical ranges, counts, pe/elf/macho values read after the callback.  Non-trivial: hist with a clone and a "
-            "state-changing operation; hash with a repeated range; conc with >= 2 threads; seq with >= 2 different inputs; nest where an inner scan really ran; distinct by content.")
+            "scanner; hash.* over identical ranges, counts, pe/elf/macho values read after the callback.  script: a scanner and clones with their own ScanParams (300-400 ms "
+            "timeout vs none), set_scan_params between scans, list / callback / aborting-callback scans, early returns "
+            "(first pass, all namespaces disabled, abort), a wait longer than the timeout, then hash-using rules on "
+            "timeout-free scanners of the same thread; or a compiler-given logger that panics at its k-th call.  conc "
+            "cases always evaluate console.log/console.hex in conditions, one in four with a 3-10 ms logger.  Non-trivial: hist with a clone and a "
+            "state-changing operation; hash with a repeated range; conc with >= 2 threads; seq with >= 2 different inputs; nest where an inner scan really ran; script with >= 2 scans; distinct by content.")
     TRUSTED = ["Coq 8.16.1 kernel + vm_compute",
                "harness/src/bin/c13.rs (runs the real Scanner API; probe scans, tagged console callbacks, thread "
                "scope with barrier and seeded yields)",
@@ -324,6 +331,10 @@ class C13(Prop):
         mode = rng.choice(["shared", "clones"])
         threads = rng.choice([1, 2, 4, 8, 16])
         njobs = rng.range(3, 12)
+        slow_console = rng.chance(1, 4)
+        if slow_console:
+            threads = rng.choice([2, 3, 4, 8])
+            njobs = rng.range(max(3, threads), max(4, threads + 2))
         alphabet = b"abcdefghij0123456789 xyz"
         needles = [b"needle%d" % i for i in range(3)] + [b"QzX"]
         with_modules = rng.chance(1, 4)
@@ -430,6 +441,14 @@ class C13(Prop):
             lines.append("rule m1 { condition: elf.type == elf.ET_EXEC or elf.number_of_sections > 5 }")
             lines.append("rule m2 { condition: pe.is_dll() or macho.filetype == 2 }")
             lines.append("rule m3 { condition: for any i in (0..pe.number_of_sections - 1): (pe.sections[i].name == \".text\") }")
+        # console.log / console.hex in conditions: their value (1) must not depend on what other scans are doing
+        lines.insert(0, 'import "console"')
+        lines.append('rule cl0 { condition: console.log("job") and filesize >= 0 }')
+        expect["cl0"] = ("true",)
+        lines.append('rule cl1 { strings: $a = "needle0" condition: console.hex("n=", #a) and $a }')
+        expect["cl1"] = ("in", b"needle0".hex())
+        lines.append('rule cl2 { condition: console.log("i=", ext_i) and console.log("s=", ext_s) }')
+        expect["cl2"] = ("true",)
         # external symbols
         csyms = [{"name": "ext_i", "int": 0}, {"name": "ext_s", "bytes": b"".hex()}, {"name": "ext_b", "bool": False}]
         lines.append('rule e0 { condition: ext_i == 5 and ext_s contains "ab" and ext_b }')
@@ -462,10 +481,16 @@ class C13(Prop):
                 (j.get("params") or base_params)["events"] = ev
         if mode == "shared" and any(j["api"] == "callback" for j in jobs):
             base_params["events"] = rng.choice([1, 3, 7])
-        return {"kind": "conc", "rules": [{"ns": None, "src": "\n".join(lines)}], "csymbols": csyms, "jobs": jobs,
+        case = {"kind": "conc", "rules": [{"ns": None, "src": "\n".join(lines)}], "csymbols": csyms, "jobs": jobs,
                 "threads": threads, "mode": mode, "assign": [rng.below(threads) for _ in jobs],
                 "seed": rng.next() >> 12, "rounds": rng.range(1, 3), "base_params": base_params,
                 "base_symbols": base_symbols, "expect": expect}
+        if slow_console:
+            # a slow logger: the scans of the different threads are inside the console callback at the same time
+            case["console_sleep_us"] = rng.choice([3000, 6000, 10000])
+            case["assign"] = [j % threads for j in range(len(jobs))]
+            case["rounds"] = rng.range(1, 2)
+        return case
 
     # ================================================================ generation: seq
     def gen_seq(self, rng, thrash):
@@ -601,6 +626,67 @@ class C13(Prop):
                 "at": rng.choice([[1], [1], [], [2], [1, 3]]), "deeper": api == "callback" and rng.chance(1, 2),
                 "params": params, "same_input": X == Y}
 
+    # ================================================================ generation: script
+    def gen_script(self, rng):
+        """one thread, several scanners with their own parameters (timeouts), scans that return early, waits"""
+        h = lambda alg, d: getattr(hashlib, alg)(d).hexdigest()
+        inputs = [rng.bytes(rng.range(8, 60), b"abcdefgh 0123") for _ in range(rng.range(2, 4))]
+        inputs.append(b"sevenby")                       # filesize == 7: the global rule is false, every namespace disabled
+        family = rng.choice(["timeout", "timeout", "console_panic"])
+        with_strings = rng.chance(1, 3)
+        lines = ['import "hash"', 'import "console"', "global rule g { condition: filesize != 7 }"]
+        for k, d in enumerate(inputs):
+            lines.append('rule h%d { condition: hash.md5(0, filesize) == "%s" and hash.sha256(0, filesize) == "%s" }'
+                         % (k, h("md5", d), h("sha256", d)))
+        lines.append('rule hp { condition: hash.sha1(1, 4) == "%s" or hash.sha1(1, 4) == "%s" }'
+                     % (h("sha1", inputs[0][1:5]), h("sha1", inputs[1][1:5])))
+        if with_strings:
+            lines.append('rule st { strings: $a = "abc" condition: #a >= 0 and hash.md5(0, filesize) != "" }')
+        if family == "console_panic":
+            lines.append('rule c0 { condition: console.log("v=", filesize) and filesize > 0 }')
+            lines.append('rule c1 { condition: console.hex("h=", filesize) }')
+        T = rng.choice([300, 400])
+        steps = []
+        n = len(inputs)
+        scan = lambda on, api=None: {"op": "scan", "on": on, "input": rng.below(n), "api": api or rng.choice(["list", "list", "callback", "abort"])}
+        case = {"kind": "script", "family": family, "rules": [{"ns": None, "src": "\n".join(lines)}],
+                "inputs": [b.hex() for b in inputs]}
+        if family == "timeout":
+            steps.append({"op": "clone", "from": "s", "to": "plain"})
+            who = rng.choice(["s", "t"])
+            if who == "t":
+                steps.append({"op": "clone", "from": "s", "to": "t"})
+            p = {"timeout_ms": T}
+            if rng.chance(1, 3):
+                p["compute_full_matches"] = True
+            steps.append({"op": "params", "on": who, "params": p})
+            for _ in range(rng.range(0, 3)):
+                steps.append(scan(who))
+            # the last scan under the timeout returns early: decided by the first evaluation pass (rules without
+            # strings), every namespace disabled by the global rule, or aborted by the callback
+            early = rng.choice(["disabled", "abort"] if (with_strings or p.get("compute_full_matches")) else ["first_pass", "first_pass", "disabled", "abort"])
+            if early == "disabled":
+                steps.append({"op": "scan", "on": who, "input": n - 1, "api": "list"})
+            elif early == "abort":
+                steps.append({"op": "scan", "on": who, "input": rng.below(n - 1), "api": "abort"})
+            else:
+                steps.append({"op": "scan", "on": who, "input": rng.below(n - 1), "api": "list"})
+            if rng.chance(1, 3):
+                steps.append({"op": "params", "on": who, "params": {}})                    # back to the defaults
+            if rng.chance(4, 5):
+                steps.append({"op": "sleep", "ms": T + 60})
+            for _ in range(rng.range(2, 5)):
+                steps.append(scan(rng.choice(["plain", "plain", who]), rng.choice(["list", "callback"])))
+        else:
+            k = rng.range(1, 4)
+            case["console_panic_at"] = k
+            steps.append({"op": "clone", "from": "s", "to": "c"})
+            for _ in range(rng.range(4, 8)):
+                steps.append(scan(rng.choice(["s", "c"]), rng.choice(["list", "callback"])))
+        case["steps"] = steps
+        case["must"] = [["h%d" % k] for k in range(n)]     # rule that must match when input k is scanned to its end
+        return case
+
     # ================================================================ protocol
     def generate(self, ctx, rng, n):
         out = []
@@ -611,8 +697,10 @@ class C13(Prop):
                 out.append(self.gen_hist(r))
             elif k < 12:
                 out.append(self.gen_hash(r))
-            elif k < 16:
+            elif k < 15:
                 out.append(self.gen_conc(r))
+            elif k == 15:
+                out.append(self.gen_script(r))
             elif k == 16:
                 out.append(self.gen_nest(r))
             elif k == 17:
@@ -622,7 +710,7 @@ class C13(Prop):
             elif i % 40 == 19:
                 out.append(self.gen_seq(r, True))             # the cache-thrashing family is the expensive one
             else:
-                out.append(self.gen_nest(r))
+                out.append(self.gen_script(r))
         return out
 
     def budget(self, tier):
@@ -655,10 +743,13 @@ class C13(Prop):
                     ctx.count("hist op=" + o["op"])
             elif c["kind"] == "conc":
                 ctx.count("conc threads=%d" % c["threads"])
+                ctx.count("conc slow console=%s" % bool(c.get("console_sleep_us")))
                 ctx.count("conc mode=" + c["mode"])
                 ctx.count("conc jobs", len(c["jobs"]))
                 for j in c["jobs"]:
                     ctx.count("conc api=" + j["api"])
+            elif c["kind"] == "script":
+                ctx.count("script family=" + c.get("family", "?"))
             elif c["kind"] == "nest":
                 ctx.count("nest target=" + c["target"])
                 ctx.count("nest inner api=" + c["inner_api"] + ("+deeper" if c.get("deeper") else ""))
@@ -875,6 +966,8 @@ class C13(Prop):
     def expected(self, e, data, syms, job=None):
         """True / False, or None when nothing is known by construction"""
         k = e[0]
+        if k == "true":
+            return True
         if k == "re_pos":
             return True if re.search(e[1].encode(), data) else None
         if k == "matches":
@@ -978,6 +1071,36 @@ class C13(Prop):
         except (KeyError, ValueError, TypeError, IndexError, AttributeError):
             return (False, False, 0)
 
+    def term_script(self, case, out):
+        try:
+            refs, got = out["refs"], out["got"]
+            scans = [st for st in case["steps"] if st["op"] == "scan"]
+            if len(refs) != len(scans) or len(got) != len(scans):
+                return (False, False, 0)
+            corr = spec = True
+            allowed_panics = 1 if case.get("console_panic_at") else 0
+            for st, r, g in zip(scans, refs, got):
+                if "panic" in r or "compile_error" in r:
+                    return (False, False, 0)
+                if "panic" in g:
+                    if allowed_panics and g["panic"] == "c13: console callback panic":
+                        allowed_panics -= 1          # the logger of the case panics once: that scan is lost, no other
+                        continue
+                    return (False, False, 0)
+                if r.get("error") == "Timeout" or g.get("error") == "Timeout":
+                    continue                         # a 300 ms timeout really reached on a loaded machine: inconclusive
+                if g != r:
+                    corr = spec = False
+                # by construction: input k scanned to its end satisfies h<k> (nothing else hides it unless filesize == 7)
+                if st.get("api", "list") != "abort" and st["input"] != len(case["inputs"]) - 1:
+                    names = ({x["name"] for x in g.get("rules", []) if x["matched"]}
+                             | {e["rule"]["name"] for e in g.get("events", []) if e["ev"] == "match"})
+                    if not all(m in names for m in case["must"][st["input"]]):
+                        spec = False
+            return (corr, spec and corr, 0)
+        except (KeyError, ValueError, TypeError, IndexError, AttributeError):
+            return (False, False, 0)
+
     def term(self, ctx, case, out):
         if not isinstance(out, dict) or "panic" in out or "crash" in out or "compile_error" in out or "error" in out:
             return (False, False, 0)
@@ -989,6 +1112,8 @@ class C13(Prop):
             return self.term_seq(case, out)
         if case["kind"] == "nest":
             return self.term_nest(case, out)
+        if case["kind"] == "script":
+            return self.term_script(case, out)
         return self.term_conc(case, out)
 
     def nontrivial(self, case, out):
@@ -997,6 +1122,10 @@ class C13(Prop):
             ops = case["ops"]
             if any(o["op"] == "clone" for o in ops) and any(o["op"] in ("define", "params", "mdata") for o in ops):
                 return json.dumps([case["csymbols"], ops], sort_keys=True)
+            return None
+        if k == "script":
+            if sum(1 for st in case["steps"] if st["op"] == "scan") >= 2:
+                return json.dumps([case["rules"], case["inputs"], case["steps"]], sort_keys=True)
             return None
         if k == "nest":
             if isinstance(out, dict) and out.get("nested_outer", {}).get("inner"):
@@ -1020,6 +1149,8 @@ class C13(Prop):
         if case["kind"] == "conc":
             c["jobs"] = [{k: (v if k != "input" else v[:40] + "...") for k, v in j.items()} for j in case["jobs"][:4]]
             o = {"oracle_first": (out or {}).get("oracle", [None])[0]} if isinstance(out, dict) else out
+        elif case["kind"] == "script":
+            o = {"got_first": (out or {}).get("got", [None])[0]} if isinstance(out, dict) else out
         elif case["kind"] == "nest":
             o = {"nested_outer_events": [e.get("rule", {}).get("name") for e in (out or {}).get("nested_outer", {}).get("events", [])]} if isinstance(out, dict) else out
         elif case["kind"] == "seq":
